@@ -195,6 +195,7 @@ def seeded(only=None):
     if only:
         dirs = [d for d in dirs if os.path.basename(d) in only]
     bad = 0
+    declared = 0
     with ThreadPoolExecutor(max_workers=2) as ex:
         for d, meta, res, err in ex.map(_one_seeded, dirs):
             name = os.path.basename(d)
@@ -205,12 +206,17 @@ def seeded(only=None):
             caught = [p for p, rc, _ in res if rc == 1]
             if caught:
                 print("seeded %-24s (%s) caught by %s" % (name, meta["property"], ",".join(caught)))
+            elif meta.get("not_caught_reason"):
+                declared += 1
+                print("seeded %-24s (%s) not caught, as declared in its meta.json: %s" % (
+                    name, meta["property"], meta["not_caught_reason"][:110]))
             else:
                 bad += 1
                 print("seeded %-24s (%s) NOT caught: %s" % (
                     name, meta["property"], [(p, rc) for p, rc, _ in res]))
                 print(res[0][2][-500:])
-    print("%d/%d seeded changes caught" % (len(dirs) - bad, len(dirs)))
+    print("%d/%d seeded changes caught%s" % (len(dirs) - bad - declared, len(dirs),
+                                             (" (%d declared as not caught)" % declared) if declared else ""))
     return 2 if bad else 0
 
 
